@@ -42,6 +42,17 @@
 (* zero / all-ones / weak / semi-weak DES sub-keys, parity, repeating      *)
 (* patterns), and what an *rsa.PrivateKey holds in Primes / Precomputed    *)
 (* (table RsaParts).                                                       *)
+(*                                                                         *)
+(* Round 5 (fixes/XmlEnc-e.md) adds two dimensions: the LEXICAL CLASS of   *)
+(* the Algorithm identifier of xenc11:MGF (table MgfId: attribute absent / *)
+(* empty / without '#' / '#' last / a short suffix / well-formed unknown / *)
+(* the W3C identifiers) crossed with the DigestMethod classes, and         *)
+(* ds:KeyInfo as a SEQUENCE OF ITEMS in document order (EncryptedKey,      *)
+(* X509Data, ds:RetrievalMethod, ds:KeyName) with the URI classes of a     *)
+(* RetrievalMethod (table RmUri) and a small REFERENCE GRAPH among         *)
+(* EncryptedKey elements carrying an Id (inside the element or standing    *)
+(* behind it in the enclosing element: self reference, 2-cycle, chain,     *)
+(* dangling, repeated Id).                                                 *)
 (***************************************************************************)
 EXTENDS Integers, Sequences, FiniteSets, TLC, Json
 
@@ -106,6 +117,16 @@ W3C(a) == CASE a = "aes128-cbc"    -> [mode |-> "cbc", cipher |-> "aes",  key |-
 \*                            from which one of these values has been removed.
 \* ValidatesKey               an implementation that calls (*rsa.PrivateKey).Validate on the caller's key before using it
 \*                            (go1.23: Validate calls prime.Cmp on every entry of Primes without a nil check).  FALSE in every tree.
+\* MgfErrorSlicesIdentifier   pubkey.go:140-142: an implementation that, where it refuses the identifier of xenc11:MGF, cuts a hash name out
+\*                            of it for the error text at a fixed distance behind its last '#' (identifier[LastIndex('#')+5:]) - out
+\*                            of range for an identifier with fewer than four characters behind its last '#'.  FALSE in every tree.
+\* RetrievalMethod            cbc.go:86 / gcm.go:91 look for ./KeyInfo/EncryptedKey only: "ignored" - a ds:RetrievalMethod is not read,
+\*                            a level without inline EncryptedKey is decrypted with the caller's key ("expected key to be []byte"
+\*                            for any other value).  "xpath": an implementation that, without inline EncryptedKey and with a key that
+\*                            is not yet a byte string, takes the first RetrievalMethod, strips a leading '#' from its URI, pastes
+\*                            the rest into the etree path //EncryptedKey[@Id='...'] (FindElement panics on a path whose filter has
+\*                            an apostrophe or an opening bracket) and decrypts the element found, with the same key, without
+\*                            remembering where it has been.  "ignored" in every tree.
 DevNone ==
   [StripOffByOne |-> FALSE, AcceptOversizePadding |-> FALSE, DesSingleKey |-> FALSE, DecIvFixed16 |-> FALSE,
    NoAlignCheck |-> FALSE, GcmPads |-> FALSE, GcmNonceShadowed |-> FALSE, GcmSealsZeros |-> FALSE,
@@ -113,7 +134,7 @@ DevNone ==
    DigestEmit |-> "w3c", DigestAccept |-> {"w3c"}, MgfFollowsDigest |-> FALSE, Oaep11NoMgf |-> FALSE,
    NoKeyCompletenessCheck |-> FALSE, Oaep11MgfIsDigest |-> FALSE, PrefixBound |-> {},
    AbsentDigestKeepsConfigured |-> FALSE, OaepParamsIgnored |-> FALSE, KeyRefusal |-> {}, ValidatesKey |-> FALSE,
-   UncheckedPrecomputed |-> FALSE]
+   UncheckedPrecomputed |-> FALSE, MgfErrorSlicesIdentifier |-> FALSE, RetrievalMethod |-> "ignored"]
 DevPinned ==
   [StripOffByOne |-> TRUE, AcceptOversizePadding |-> TRUE, DesSingleKey |-> TRUE, DecIvFixed16 |-> TRUE,
    NoAlignCheck |-> TRUE, GcmPads |-> TRUE, GcmNonceShadowed |-> TRUE, GcmSealsZeros |-> TRUE,
@@ -121,7 +142,7 @@ DevPinned ==
    DigestEmit |-> "pkg", DigestAccept |-> {"pkg"}, MgfFollowsDigest |-> TRUE, Oaep11NoMgf |-> TRUE,
    NoKeyCompletenessCheck |-> TRUE, Oaep11MgfIsDigest |-> FALSE, PrefixBound |-> {},
    AbsentDigestKeepsConfigured |-> FALSE, OaepParamsIgnored |-> TRUE, KeyRefusal |-> {}, ValidatesKey |-> FALSE,
-   UncheckedPrecomputed |-> TRUE]
+   UncheckedPrecomputed |-> TRUE, MgfErrorSlicesIdentifier |-> FALSE, RetrievalMethod |-> "ignored"]
 \* the tree with the patches of /verif/fixes/C10-*.patch, C11-*.patch, C11b-*.patch applied
 DevFixed ==
   [StripOffByOne |-> FALSE, AcceptOversizePadding |-> TRUE, DesSingleKey |-> FALSE, DecIvFixed16 |-> FALSE,
@@ -130,7 +151,12 @@ DevFixed ==
    DigestEmit |-> "w3c", DigestAccept |-> {"w3c", "pkg"}, MgfFollowsDigest |-> TRUE, Oaep11NoMgf |-> FALSE,
    NoKeyCompletenessCheck |-> FALSE, Oaep11MgfIsDigest |-> TRUE, PrefixBound |-> {},
    AbsentDigestKeepsConfigured |-> FALSE, OaepParamsIgnored |-> TRUE, KeyRefusal |-> {}, ValidatesKey |-> FALSE,
-   UncheckedPrecomputed |-> FALSE]
+   UncheckedPrecomputed |-> FALSE, MgfErrorSlicesIdentifier |-> FALSE, RetrievalMethod |-> "ignored"]
+\* The deviations the required design is run with: none.  XmlEnc_C11dev.cfg replaces ReqDev by DevSeeded5 - the two
+\* behaviours of round 5 switched on - and TLC must then REFUTE Total (the check breaks when it does not): the two new
+\* dimensions are not vacuous.
+ReqDev == DevNone
+DevSeeded5 == [DevNone EXCEPT !.MgfErrorSlicesIdentifier = TRUE, !.RetrievalMethod = "xpath"]
 
 (* implementation parameters under a deviation record d *)
 KeySize(d, a) == IF a = "tripledes-cbc" /\ d.DesSingleKey THEN 8 ELSE W3C(a).key
@@ -225,10 +251,70 @@ Dm(name, uri) == [k |-> "known", name |-> name, uri |-> IF name = "sha1" THEN "b
 \*   ks   : an xenc:KeySize child of EncryptionMethod is present (holding the key size the algorithm implies)
 \* Every child of EncryptionMethod is optional (XML-Enc 1.1 schema: KeySize?, OAEPparams?, any##other*): absent
 \* ds:DigestMethod means SHA-1, absent xenc11:MGF means MGF1 with SHA-1, absent OAEPparams the empty label.
+\* Round 5:
+\*   mgfid: the lexical class of the Algorithm identifier of the xenc11:MGF element (table MgfId): "none" (no MGF
+\*          element) | "w3c" (http://www.w3.org/2009/xmlenc11#mgf1<mgf>) | a class that names no mask generation function
+\*          (then mgf = "unnamed")
+\*   id   : the Id attribute: "none" (no attribute) | "empty" (Id="") | a name
+\*   ki   : ds:KeyInfo as the sequence of its items in document order (operator KiOf): <<>> stands for the order all
+\*          earlier families are written in - the EncryptedKey children, then the X509Data of class cert
 El(em, cv, len, ct, dm, mgf, cert, eks) ==
   [em |-> em, cv |-> cv, len |-> len, ct |-> ct, dm |-> dm, mgf |-> mgf, cert |-> cert, eks |-> eks,
-   oaepp |-> "absent", ks |-> FALSE]
+   oaepp |-> "absent", ks |-> FALSE, mgfid |-> IF mgf = "absent" THEN "none" ELSE "w3c", id |-> "none", ki |-> <<>>]
 DataEl(em, cv, len, ct, eks) == El(em, cv, len, ct, NoDm, "absent", "absent", eks)
+
+\* The Algorithm identifier of xenc11:MGF as a string: what an implementation can do with it before it knows whether it
+\* names anything - look for the attribute, look for a '#', cut behind it.
+\*   attr : the attribute is present         hash : the identifier contains a '#'
+\*   tail : how many characters stand behind its last '#' (without '#': how many it has): "0" | "1-3" | "4+"
+\*   w3c  : it is one of the identifiers XML-Enc 1.1 defines (mgf1sha1 ... mgf1sha512)
+MgfId(c) ==
+  LET I(attr, hash, tail, w3c) == [attr |-> attr, hash |-> hash, tail |-> tail, w3c |-> w3c] IN
+  CASE c = "noattr"          -> I(FALSE, FALSE, "0", FALSE)    \* <xenc11:MGF/>
+    [] c = "empty"           -> I(TRUE, FALSE, "0", FALSE)     \* Algorithm=""
+    [] c = "bare-short"      -> I(TRUE, FALSE, "1-3", FALSE)   \* "mgf"
+    [] c = "bare-long"       -> I(TRUE, FALSE, "4+", FALSE)    \* "mgf1sha256": the local part alone
+    [] c = "hash-last"       -> I(TRUE, TRUE, "0", FALSE)      \* "http://www.w3.org/2009/xmlenc11#"
+    [] c = "short"           -> I(TRUE, TRUE, "1-3", FALSE)    \* "http://www.w3.org/2009/xmlenc11#mgf"
+    [] c = "short-foreign"   -> I(TRUE, TRUE, "1-3", FALSE)    \* "urn:x#sha"
+    [] c = "unknown"         -> I(TRUE, TRUE, "4+", FALSE)     \* "http://www.w3.org/2009/xmlenc11#mgf1sha3-256"
+    [] c = "unknown-foreign" -> I(TRUE, TRUE, "4+", FALSE)     \* "http://example.com/verif/unknown#mgf1sha256"
+    [] OTHER                 -> I(TRUE, TRUE, "4+", TRUE)      \* "w3c"; "none": the default identifier ...#mgf1sha1 stands in
+MgfIdClasses == {"noattr", "empty", "bare-short", "bare-long", "hash-last", "short", "short-foreign", "unknown", "unknown-foreign"}
+
+\* ds:KeyInfo as a sequence of items.  An item is [k, n, uri, to]:
+\*   k = "ek"   the n-th element of eks (an inline xenc:EncryptedKey)
+\*   k = "x509" the X509Data element(s) of class cert
+\*   k = "name" a ds:KeyName
+\*   k = "rm"   a ds:RetrievalMethod (Type = ...xmlenc#EncryptedKey) whose URI attribute has the lexical class uri and,
+\*              where the class names an element, names the element whose Id is to
+Item(k, n, u, to) == [k |-> k, n |-> n, uri |-> u, to |-> to]
+EkIt(i) == Item("ek", i, "", "")
+X5It == Item("x509", 0, "", "")
+NameIt == Item("name", 0, "", "")
+Rm(u, to) == Item("rm", 0, u, to)
+IsRm(it) == it.k = "rm"
+KiStd(eks, cert) == [i \in 1..Len(eks) |-> EkIt(i)] \o (IF cert = "absent" THEN <<>> ELSE <<X5It>>)
+KiOf(e) == IF e.ki = <<>> THEN KiStd(e.eks, e.cert) ELSE e.ki
+\* the URI attribute of a RetrievalMethod as a string (t: the Id of the element meant):
+\*   attr    : the attribute is present             frag : it begins with '#' (a same-document reference)
+\*   idtext  : what remains behind a leading '#': "to" the Id meant | "empty" nothing | "other" anything else
+\*   special : the characters of XPath / etree-path syntax in it: "quote" an apostrophe, "bracket" an opening bracket
+\*   denotes : where a conformant same-document dereference arrives (XML-Signature 4.4.3.2/3): "to" | "none"
+RmUri(u) ==
+  LET U(attr, frag, idtext, special, denotes) == [attr |-> attr, frag |-> frag, idtext |-> idtext, special |-> special, denotes |-> denotes] IN
+  CASE u = "plain"    -> U(TRUE, TRUE, "to", {}, "to")                 \* "#t"
+    [] u = "dangling" -> U(TRUE, TRUE, "other", {}, "none")            \* "#nobody"
+    [] u = "empty"    -> U(TRUE, FALSE, "empty", {}, "none")           \* "" (the document)
+    [] u = "noattr"   -> U(FALSE, FALSE, "empty", {}, "none")
+    [] u = "hashonly" -> U(TRUE, TRUE, "empty", {}, "none")            \* "#"
+    [] u = "bare"     -> U(TRUE, FALSE, "to", {}, "none")              \* "t": a relative reference to another resource
+    [] u = "quote"    -> U(TRUE, TRUE, "other", {"quote"}, "none")     \* "#it's"  (an apostrophe is a legal URI character)
+    [] u = "dquote"   -> U(TRUE, TRUE, "other", {}, "none")            \* '#t"1'
+    [] u = "brackets" -> U(TRUE, TRUE, "other", {"bracket"}, "none")   \* "#t[1]"
+    [] u = "xpointer" -> U(TRUE, TRUE, "other", {"quote"}, "to")       \* "#xpointer(id('t'))"
+    [] u = "external" -> U(TRUE, FALSE, "other", {}, "none")           \* "http://example.com/keys.xml#t"
+RmUris == {"plain", "dangling", "empty", "noattr", "hashonly", "bare", "quote", "dquote", "brackets", "xpointer", "external"}
 
 \* X509Data classes.  The content of ds:KeyInfo/ds:X509Data is a sequence of ITEMS in document order, [kind, n, e]:
 \*   a certificate (X509Certificate): kind rsa | ec | garbage (text that is not a certificate), n the identity of the
@@ -322,7 +408,7 @@ LexC11t == { l \in LexAll : (Uniform(l) /\ (Plain(l) \/ Busy(l) \/ l.decl = "sel
 LexForms == CASE Family = "C10q" -> LexC10q [] Family = "C11q" -> LexC11q [] Family = "C10t" -> LexC10t [] OTHER -> LexC11t
 NsOf(name) == CASE name \in {"EncryptedData", "EncryptedKey", "EncryptionMethod", "CipherData", "CipherValue", "KeySize", "OAEPparams"} -> "xenc"
                 [] name = "MGF" -> "xenc11"
-                [] OTHER -> "ds"     \* KeyInfo, DigestMethod, X509Data, X509Certificate, X509IssuerSerial, ...
+                [] OTHER -> "ds"     \* KeyInfo, DigestMethod, X509Data, X509Certificate, X509IssuerSerial, RetrievalMethod, KeyName ...
 \* The lookups of the code are etree paths (decrypt.go:56 ./EncryptionMethod, :69 ./CipherData/CipherValue,
 \* :98 ./KeyInfo/X509Data/X509Certificate, :116 ./KeyInfo/X509Data/X509IssuerSerial; pubkey.go:120
 \* ./EncryptionMethod/DigestMethod, :137 ./EncryptionMethod/MGF; cbc.go:86, gcm.go:91 ./KeyInfo/EncryptedKey).  A path
@@ -337,6 +423,8 @@ View(d, lex, e) ==
   [e EXCEPT !.em   = IF s({"EncryptionMethod"}) THEN @ ELSE "absent",
             !.dm   = IF s({"EncryptionMethod", "DigestMethod"}) THEN @ ELSE [k |-> "absent", name |-> "", uri |-> ""],
             !.mgf  = IF s({"EncryptionMethod", "MGF"}) THEN @ ELSE "absent",
+            !.mgfid = IF s({"EncryptionMethod", "MGF"}) THEN @ ELSE "none",
+            !.ki   = IF s({"KeyInfo", "RetrievalMethod"}) THEN @ ELSE SelectSeq(@, LAMBDA it : ~IsRm(it)),
             !.oaepp = IF s({"EncryptionMethod", "OAEPparams"}) THEN @ ELSE "absent",
             !.ks   = IF s({"EncryptionMethod", "KeySize"}) THEN @ ELSE FALSE,
             !.eks  = IF s({"KeyInfo", "EncryptedKey"}) THEN @ ELSE <<>>,
@@ -602,8 +690,82 @@ F5 == UNION { { [fam |-> "nest", via |-> "rsa", el |-> Depth2(a, RefEK("rsa-oaep
                 [fam |-> "nest", via |-> "rsa", el |-> GoodData(a, << StdEK(W3C(a).key), StdEK(W3C(a).key) >>), key |-> SpKey] }
             : a \in {"aes128-cbc", "aes256-cbc", "tripledes-cbc", "aes128-gcm"} }
 
+\* F4g (round 5): the identifier of xenc11:MGF as a string.  Every lexical class of table MgfId x every DigestMethod
+\* class, under the 2009 key transport (the only one that reads the element); the W3C identifiers x every DigestMethod
+\* class (matching and mismatching the digest); a sample under the other two key transports (which must not read it).
+\* A key under an identifier that names nothing is wrapped with MGF1 over the DigestMethod's hash - what an implementation
+\* that does not read the element would unwrap with.  EncryptedKey on its own ("ek") and nested in EncryptedData ("rsa").
+MgfEK(kt, dm, idc, cert, payload) ==
+  LET e == RefEK(kt, dm, "absent", cert, "sp", payload) IN
+  [e EXCEPT !.mgf = "unnamed", !.mgfid = idc,
+            !.ct = IF kt = "rsa-oaep11" THEN [@ EXCEPT !.mgf = RefHash(dm)] ELSE @]
+G4Dms(via) == IF Thorough \/ via = "ek" THEN DmVariants ELSE {NoDm, Dm("sha256", "w3c")}
+G4Certs == IF Thorough THEN {"absent", "sp", "sp2"} ELSE {"sp"}
+G4Eks(via) == UNION { { MgfEK("rsa-oaep11", dm, idc, cert, Bytes(16, "K")) : idc \in MgfIdClasses }
+                      \cup { RefEK("rsa-oaep11", dm, mgf, cert, "sp", Bytes(16, "K")) : mgf \in {"absent", "sha1", "sha256", "sha512"} }
+                      : dm \in G4Dms(via), cert \in G4Certs }
+                \cup { MgfEK(kt, IF kt = "rsa-1_5" THEN NoDm ELSE Dm("sha1", "w3c"), idc, "sp", Bytes(16, "K")) :
+                         kt \in {"rsa-oaep-mgf1p", "rsa-1_5"}, idc \in {"noattr", "empty", "short", "unknown"} }
+MgfTag(ek) == "mgf=" \o (IF ek.mgfid = "w3c" THEN "mgf1" \o ek.mgf ELSE ek.mgfid)
+F4g == { [fam |-> "ekmgf", via |-> "ek", el |-> ek, key |-> SpKey, tag |-> MgfTag(ek)] : ek \in G4Eks("ek") }
+       \cup { [fam |-> "ekmgf", via |-> "rsa", el |-> GoodData("aes128-cbc", <<ek>>), key |-> SpKey, tag |-> MgfTag(ek)] : ek \in G4Eks("rsa") }
+
+\* F7 (round 5): ds:KeyInfo as a sequence of items, ds:RetrievalMethod, references among EncryptedKey elements.
+\* A case has, besides the element handed to Decrypt, the EncryptedKey elements standing BEHIND it in the enclosing
+\* element (sibs; the layout in which the EncryptedKey is a sibling of the EncryptedData and KeyInfo refers to it).
+\*   RsaK(id, n, p): an RSA EncryptedKey with that Id carrying the n octets p for the sp key
+\*   BlkK(a, id, ki, eks): a block-cipher EncryptedKey (as in F5) with that Id carrying the data key K under the key K2
+RefBcs == IF Thorough THEN BCs ELSE {"aes128-cbc", "aes128-gcm"}
+RsaK(id, n, p) == [RefEK("rsa-oaep-mgf1p", Dm("sha1", "w3c"), "absent", "sp", "sp", Bytes(n, p)) EXCEPT !.id = id]
+BlkK(a, id, ki, eks) == [El("aes128-cbc", "ok", 48, KwCbc(a), NoDm, "absent", "absent", eks) EXCEPT !.id = id, !.ki = ki]
+KData(a, ki, eks) == [GoodData(a, eks) EXCEPT !.ki = ki]
+NilKey == KeyVal("nil", 0, "none")
+RefKeys(a) == {SpKey, DirectKey(a), NilKey}
+              \cup (IF Thorough THEN {KeyVal("string", 16, "K"), KeyVal("ecdsa", 32, "ec256"), KeyVal("bytes", 8, "K"), KeyVal("signer", 256, "sp")} ELSE {})
+\* (a) every URI class, the element meant standing behind the EncryptedData or nowhere, x key value
+F7a == UNION { { [fam |-> "keyinfo", via |-> "ref", el |-> KData(a, <<Rm(u, "k1")>>, <<>>), sibs |-> sb, key |-> k,
+                  tag |-> "uri=" \o u \o (IF sb = <<>> THEN ":target=none" ELSE ":target=sibling")] :
+                  u \in RmUris, sb \in {<<>>, <<RsaK("k1", W3C(a).key, "K")>>}, k \in RefKeys(a) }
+               : a \in RefBcs }
+\* (b) the items of KeyInfo in every order: RetrievalMethod in front of / behind an inline EncryptedKey, behind a KeyName,
+\* in front of X509Data, two RetrievalMethods
+F7bUris == IF Thorough THEN RmUris ELSE {"plain", "quote", "brackets", "dangling"}
+F7b == UNION { {
+          [fam |-> "keyinfo", via |-> "ref", el |-> KData(a, <<Rm(u, "k1"), EkIt(1)>>, <<StdEK(W3C(a).key)>>), sibs |-> <<>>, key |-> SpKey,
+           tag |-> "items=rm+ek:uri=" \o u],
+          [fam |-> "keyinfo", via |-> "ref", el |-> KData(a, <<EkIt(1), Rm(u, "k1")>>, <<StdEK(W3C(a).key)>>), sibs |-> <<>>, key |-> SpKey,
+           tag |-> "items=ek+rm:uri=" \o u],
+          [fam |-> "keyinfo", via |-> "ref", el |-> KData(a, <<NameIt, Rm(u, "k1")>>, <<>>), sibs |-> <<RsaK("k1", W3C(a).key, "K")>>, key |-> SpKey,
+           tag |-> "items=name+rm:uri=" \o u],
+          [fam |-> "keyinfo", via |-> "ref", el |-> [KData(a, <<Rm(u, "k1"), X5It>>, <<>>) EXCEPT !.cert = "sp"], sibs |-> <<RsaK("k1", W3C(a).key, "K")>>, key |-> SpKey,
+           tag |-> "items=rm+x509:uri=" \o u],
+          [fam |-> "keyinfo", via |-> "ref", el |-> KData(a, <<Rm("dangling", "k1"), Rm(u, "k1")>>, <<>>), sibs |-> <<RsaK("k1", W3C(a).key, "K")>>, key |-> SpKey,
+           tag |-> "items=rm+rm:uri=dangling," \o u],
+          [fam |-> "keyinfo", via |-> "ref", el |-> KData(a, <<Rm(u, "k1"), Rm("plain", "k1")>>, <<>>), sibs |-> <<RsaK("k1", W3C(a).key, "K")>>, key |-> SpKey,
+           tag |-> "items=rm+rm:uri=" \o u \o ",plain"] }
+        : a \in RefBcs, u \in F7bUris }
+\* (c) reference graphs among EncryptedKey elements
+Graphs(a) ==
+  LET me(id) == <<Rm("plain", id)>> kl == W3C(a).key IN
+  { [tag |-> "graph=self:at=sibling", el |-> KData(a, me("k1"), <<>>), sibs |-> << BlkK(a, "k1", me("k1"), <<>>) >>],
+    [tag |-> "graph=self:at=inline", el |-> GoodData(a, << BlkK(a, "k1", me("k1"), <<>>) >>), sibs |-> <<>>],
+    [tag |-> "graph=self:at=inline:id=empty", el |-> GoodData(a, << BlkK(a, "empty", <<Rm("hashonly", "")>>, <<>>) >>), sibs |-> <<>>],
+    [tag |-> "graph=cycle2:at=sibling", el |-> KData(a, me("k1"), <<>>), sibs |-> << BlkK(a, "k1", me("k2"), <<>>), BlkK(a, "k2", me("k1"), <<>>) >>],
+    [tag |-> "graph=cycle2:at=inline+sibling", el |-> GoodData(a, << BlkK(a, "k1", me("k2"), <<>>) >>), sibs |-> << BlkK(a, "k2", me("k1"), <<>>) >>],
+    [tag |-> "graph=cycle2:at=nested", el |-> KData(a, me("k2"), <<>>), sibs |-> << BlkK(a, "k1", <<>>, << BlkK(a, "k2", me("k1"), <<>>) >>) >>],
+    [tag |-> "graph=chain:ends=rsa", el |-> KData(a, me("k1"), <<>>), sibs |-> << BlkK(a, "k1", me("k2"), <<>>), RsaK("k2", 16, "K2") >>],
+    [tag |-> "graph=chain:ends=dangling", el |-> KData(a, me("k1"), <<>>), sibs |-> << BlkK(a, "k1", me("k9"), <<>>) >>],
+    [tag |-> "graph=repeated-id", el |-> KData(a, me("k1"), <<>>), sibs |-> << [BadEK EXCEPT !.id = "k1"], RsaK("k1", kl, "K") >>],
+    [tag |-> "graph=self:in=rsa:at=sibling", el |-> KData(a, me("k1"), <<>>), sibs |-> << [RsaK("k1", kl, "K") EXCEPT !.ki = me("k1") \o <<X5It>>] >>],
+    [tag |-> "graph=self:in=rsa:at=inline", el |-> GoodData(a, << [RsaK("k1", kl, "K") EXCEPT !.ki = <<X5It>> \o me("k1")] >>), sibs |-> <<>>] }
+GraphKeys == {SpKey, NilKey} \cup (IF Thorough THEN {KeyVal("string", 16, "K"), KeyVal("ecdsa", 32, "ec256"), KeyVal("bytes", 16, "K2"), KeyVal("signer", 256, "sp")} ELSE {})
+F7c == UNION { { [fam |-> "keyinfo", via |-> "ref", el |-> g.el, sibs |-> g.sibs, key |-> k, tag |-> g.tag] : g \in Graphs(a), k \in GraphKeys }
+               : a \in RefBcs }
+F7 == F7a \cup F7b \cup F7c
+
 C11Base == F1 \cup F2 \cup F3 \cup F3k \cup F4 \cup F4b \cup F4x \cup F5
 C11New == F3m \cup F3v \cup F4oSet      \* round 4 (the new key shapes are part of F3 / F3k)
+C11Round5 == F4g \cup F7
 \* F6: the lexical form.  Cases of every verdict class - lengths around a well-formed cipher value with every final byte /
 \* modified region, every structural variant, EncryptedKey variants (digest method absent / unknown / known, MGF, X509Data
 \* absent / matching / other key / hints with and without certificate), nesting and repetition - written in every form.
@@ -618,10 +780,31 @@ LexBase == { x \in F1 : x.el.em \in LexAlgs /\ x.el.len \in {0, GoodLen(x.el.em)
                                       /\ x.el.eks[1].ct.to = "sp" /\ x.key.id = "sp" }
            \cup { x \in F5 : x.el.em = "aes128-cbc" }
            \cup { x \in F4oSet : x.via = "rsa" /\ x.el.ks /\ x.el.eks[1].oaepp = "empty" /\ x.el.eks[1].cert = "sp" }
-WithLex(S, l) == { [fam |-> x.fam, via |-> x.via, el |-> x.el, key |-> x.key, lex |-> l] : x \in S }
-C11Set == WithLex(C11Base \cup C11New, LexPkg) \cup UNION { WithLex(LexBase, l) : l \in LexForms \ {LexPkg} }
+           \* round 5: identifiers of xenc11:MGF that name nothing, RetrievalMethod URIs, reference graphs
+           \cup { x \in F4g : x.via = "rsa" /\ x.el.eks[1].dm = Dm("sha256", "w3c") /\ x.el.eks[1].cert = "sp"
+                               /\ x.el.eks[1].mgfid \in {"noattr", "empty", "short", "unknown"} }
+           \cup { x \in F7a : x.el.em = "aes128-cbc" /\ x.key = SpKey /\ x.sibs # <<>> /\ x.el.ki[1].uri \in {"plain", "quote", "brackets"} }
+           \cup { x \in F7c : x.el.em = "aes128-cbc" /\ x.key = SpKey
+                               /\ x.tag \in {"graph=self:at=inline", "graph=cycle2:at=sibling", "graph=chain:ends=rsa"} }
+\* every case carries sibs (the EncryptedKey elements behind the element, <<>> in the families without references) and tag
+\* (the name of the abstract case inside families ekmgf / keyinfo, "" elsewhere)
+Field(x, f, dflt) == IF f \in DOMAIN x THEN x[f] ELSE dflt
+WithLex(S, l) == { [fam |-> x.fam, via |-> x.via, el |-> x.el, key |-> x.key, lex |-> l,
+                    sibs |-> Field(x, "sibs", <<>>), tag |-> Field(x, "tag", "")] : x \in S }
+\* the family of XmlEnc_C11dev.cfg (refutation of Total under DevSeeded5): a sample of the two new dimensions
+C11DevSet == WithLex({ x \in F4g : x.via = "ek" /\ x.el.dm = Dm("sha256", "w3c") /\ x.el.cert = "sp" /\ x.el.mgfid \in {"w3c", "noattr", "short", "unknown"} }
+                     \cup { x \in F7a : x.el.em = "aes128-cbc" /\ x.key = SpKey /\ x.sibs # <<>> /\ x.el.ki[1].uri \in {"plain", "quote", "brackets"} }
+                     \cup { x \in F7c : x.el.em = "aes128-cbc" /\ x.key = SpKey
+                                         /\ x.tag \in {"graph=self:at=inline", "graph=cycle2:at=sibling", "graph=chain:ends=rsa"} }, LexPkg)
+C11Set == IF Family = "C11dev" THEN C11DevSet
+          ELSE WithLex(C11Base \cup C11New \cup C11Round5, LexPkg) \cup UNION { WithLex(LexBase, l) : l \in LexForms \ {LexPkg} }
 
 IsC10 == Family \in {"C10q", "C10t"}
+\* the document the element handed to Decrypt stands in, as far as it holds EncryptedKey elements: document order
+RECURSIVE Pre(_), PreSeq(_)
+Pre(e) == <<e>> \o PreSeq(e.eks)
+PreSeq(sq) == IF sq = <<>> THEN <<>> ELSE Pre(Head(sq)) \o PreSeq(Tail(sq))
+DocEKs(x) == (IF x.el.em \in KTs THEN Pre(x.el) ELSE PreSeq(x.el.eks)) \o PreSeq(x.sibs)
 \* C10 families run in the three directions, or only independent implementation -> package
 ThreeWayCase(x) == x.fam = "base" \/ (x.fam = "keyval" /\ x.kt = "direct")
 
@@ -639,7 +822,7 @@ VARIABLES impl,     \* "w3c" (required design) | "code" (prediction under Dev: t
           out       \* outcomes
 vars == <<impl, c, phase, pc, frames, kv, buf, ret, elP, elR, out>>
 
-D == CASE impl = "w3c" -> DevNone [] impl = "code" -> Dev [] impl = "fixed" -> DevFixed
+D == CASE impl = "w3c" -> ReqDev [] impl = "code" -> Dev [] impl = "fixed" -> DevFixed
 \* who encrypts / decrypts in the current phase
 ED == IF phase = "encP" THEN D ELSE DevNone
 DD == IF phase = "pkg2ref" THEN DevNone ELSE D
@@ -668,7 +851,7 @@ Init == /\ impl \in {"w3c", "code", "fixed"}
         \* tree is made once per case, in the package's form
         /\ (c.lex # LexPkg => impl # "code")
         \* the families of round 4 are predicted for the tree with the fixes only
-        /\ (c.fam \in {"opt", "keyval", "keyvalue", "ekopt"} => impl # "code")
+        /\ (c.fam \in {"opt", "keyval", "keyvalue", "ekopt", "ekmgf", "keyinfo"} => impl # "code")
         /\ (~IsC10 /\ c.key.t = "rsa" /\ (c.key.shape \in NewShapes \/ c.key.id = "mp3") => impl # "code")
         /\ buf = NoBuf /\ ret = NoRet /\ elP = NoEl /\ elR = NoEl
         /\ out = [self |-> NoOut, pkg2ref |-> NoOut, ref2pkg |-> NoOut, dec |-> NoOut]
@@ -760,12 +943,28 @@ Lookup == /\ pc = "Lookup"
                  THEN /\ buf' = [buf EXCEPT !.dg = Configured(Top.em), !.dgsrc = "configured"]
                       /\ pc' = "RsaKeyType" /\ UNCHANGED <<frames, kv, ret>> /\ Same
                  ELSE Goto("Nested")
-\* cbc.go:92-98 / gcm.go:94-100  ./KeyInfo/EncryptedKey (first one) is decrypted with the caller's key first
+\* cbc.go:86-92 / gcm.go:91-97  ./KeyInfo/EncryptedKey (first one, wherever it stands among the items of KeyInfo) is
+\* decrypted with the caller's key first.  Nothing else in KeyInfo is read at a block-cipher level: a ds:RetrievalMethod
+\* is ignored (RetrievalMethod = "ignored"), the key in hand is used.
+\* Under RetrievalMethod = "xpath" (no tree): without inline EncryptedKey and with a key that is not a byte string, the
+\* first RetrievalMethod is resolved - TrimPrefix(URI, "#") pasted into //EncryptedKey[@Id='...'], searched from the
+\* document root in document order - and the element found is decrypted with the same key; the path does not compile
+\* when the text holds an apostrophe or an opening bracket (FindElement panics); an element that is already being
+\* decrypted with this very key is decrypted again, and again: the recursion has no bound (the stack overflows).
+Push(e) == /\ frames' = Append(frames, e) /\ pc' = "FindMethod" /\ UNCHANGED <<kv, buf, ret>> /\ Same
+Resolve(idtext, to) ==
+  LET want == IF idtext = "to" THEN to ELSE IF idtext = "empty" THEN "empty" ELSE "nobody"
+      hits == SelectSeq(DocEKs(c), LAMBDA e : e.id = want) IN
+  IF hits = <<>> THEN NoEl ELSE hits[1]
 Nested == /\ pc = "Nested"
-          /\ IF Top.eks # <<>>
-               THEN /\ frames' = Append(frames, Top.eks[1]) /\ pc' = "FindMethod"
-                    /\ UNCHANGED <<kv, buf, ret>> /\ Same
-               ELSE Goto("KeyType")
+          /\ LET rms == SelectSeq(KiOf(Top), IsRm) IN
+             IF Top.eks # <<>> THEN Push(Top.eks[1])
+             ELSE IF DD.RetrievalMethod = "ignored" \/ kv.t = "bytes" \/ rms = <<>> THEN Goto("KeyType")
+             ELSE LET u == RmUri(rms[1].uri) t == Resolve(u.idtext, rms[1].to) IN
+                  IF u.special # {} THEN Fail("panic", "PathSyntax")
+                  ELSE IF t = NoEl THEN Goto("KeyType")
+                  ELSE IF \E i \in 1..Len(frames) : frames[i].id = t.id THEN Fail("panic", "UnboundedRecursion")
+                  ELSE Push(t)
 \* a frame finished: the outermost ends the run, an inner one hands its plaintext to the parent as the key
 Return ==
   /\ pc = "Return"
@@ -845,9 +1044,19 @@ RsaDigest == /\ pc = "RsaDigest"
                   ELSE SetDigest(Top.dm.name, "message")
 DecHash(e) == buf.dg
 \* pubkey.go:133-143  xmlenc11 rsa-oaep only: ./EncryptionMethod/MGF, default mgf1sha1
+\* The identifier is a string before it is a name: an identifier that names no mask generation function (attribute
+\* missing, empty, cut short, unknown: Top.mgf = "unnamed") is refused by every design that reads the element.  Where an
+\* implementation refuses the identifier it may only report it: MgfErrorSlicesIdentifier cuts the text behind
+\* LastIndex('#')+5 out of it - out of range when fewer than four characters stand behind the last '#'.
 RsaMgf == /\ pc = "RsaMgf"
-          /\ IF Top.em = "rsa-oaep11" /\ DD.Oaep11MgfIsDigest /\ (IF Top.mgf = "absent" THEN "sha1" ELSE Top.mgf) # DecHash(Top)
-               THEN Fail("error", "MgfNotImplemented") ELSE Goto("RsaUnwrap")
+          /\ LET named == IF Top.mgf = "absent" THEN "sha1" ELSE Top.mgf
+                 refused == /\ Top.em = "rsa-oaep11"
+                            /\ \/ DD.Oaep11MgfIsDigest /\ named # DecHash(Top)
+                               \/ ~DD.Oaep11NoMgf /\ named = "unnamed" IN
+             IF refused
+               THEN IF DD.MgfErrorSlicesIdentifier /\ MgfId(Top.mgfid).tail # "4+"
+                      THEN Fail("panic", "SliceIdentifier") ELSE Fail("error", "MgfNotImplemented")
+               ELSE Goto("RsaUnwrap")
 DecMgf(d, e) == IF e.em = "rsa-oaep-mgf1p"
                   THEN (IF d.MgfFollowsDigest THEN DecHash(e) ELSE "sha1")
                   ELSE (IF d.Oaep11NoMgf THEN DecHash(e) ELSE IF e.mgf = "absent" THEN "sha1" ELSE e.mgf)
@@ -1012,7 +1221,12 @@ BadDigest(e) == e.em \in {"rsa-oaep-mgf1p", "rsa-oaep11"} /\ e.dm.k = "unknown"
 \* applies (and there is nothing it could decrypt).  The same for what Primes and Precomputed hold (table RsaParts): no
 \* clause says which of these parts a key must carry - never a panic, acceptance open.  A byte string of the right size is
 \* a key of the right size whatever its octets (table KeyParts).
-BadKey(e, k) == IF e.em \in BCs THEN k.t # "bytes" \/ k.len # W3C(e.em).key
+\* A block-cipher level without inline EncryptedKey whose KeyInfo holds a ds:RetrievalMethod says that its key stands
+\* elsewhere: whether the reference is followed is left open by the statement, and with it which key value is "of the
+\* wrong type or size" for that level (an RSA key is the right key for an RSA EncryptedKey the reference names).  No
+\* clause demands acceptance or refusal there: totality only.
+RmOnly(e) == e.em \in BCs /\ e.eks = <<>> /\ SelectSeq(KiOf(e), IsRm) # <<>>
+BadKey(e, k) == IF e.em \in BCs THEN ~RmOnly(e) /\ (k.t # "bytes" \/ k.len # W3C(e.em).key)
                 ELSE IF e.em \in KTs THEN k.t \notin RsaHolders ELSE FALSE
 \* "an RSA-wrapped key whose embedded certificate does not match the supplied private key is rejected": the
 \* certificate's public key is the key's public key - same algorithm, same modulus AND same exponent.  With several
@@ -1039,6 +1253,9 @@ C11MustReject == \E i \in 1..Len(CPath) : MustRejectLevel(i)
 \* a well-formed ciphertext with the right key (C10's business; here the control that mutations start from working inputs)
 Baseline == /\ ~C11MustReject
             /\ \A i \in 1..Len(CPath) : LET e == CPath[i] IN
+                 /\ (RmOnly(e) => LevelKey(i).t = "bytes" /\ LevelKey(i).len = W3C(e.em).key)
+                 /\ (e.em \in BCs /\ e.ct.k = "blk" /\ e.ct.made # "junk" => e.ct.kid = LevelKey(i).id)     \* the right key
+                 /\ e.mgf # "unnamed"
                  /\ e.cv = "ok" /\ (\A j \in 1..Len(X509(e.cert).certs) : Matches(X509(e.cert).certs[j], c.key))
                  /\ (e.em \in KTs => (c.key.t = "rsa" /\ c.key.shape \in {"std", "noprecomp", "noprimes"}))
                  /\ (e.em \in CBCs => (e.ct.made = "cbc" /\ e.ct.last >= 1 /\ e.ct.last <= W3C(e.em).block))
@@ -1048,7 +1265,13 @@ Baseline == /\ ~C11MustReject
 C11Class == IF C11MustReject THEN "MustReject" ELSE "DontCare"
 
 \* "returns either plaintext or an error - never a panic"
+\* A panic is any way of not returning: an out-of-range slice, a panic of a library that was handed attacker-built text
+\* (PathSyntax), a recursion without bound (UnboundedRecursion: the Go runtime ends the process).
 Total == ~IsC10 /\ Required => out.dec.k # "panic" /\ ret.k # "panic"
+\* Total, cause by cause (XmlEnc_C11dev.cfg: each must be refuted under DevSeeded5)
+NoIdentifierSlice == ~IsC10 /\ Required => ret.why # "SliceIdentifier"
+NoPathPanic == ~IsC10 /\ Required => ret.why # "PathSyntax"
+NoUnboundedRecursion == ~IsC10 /\ Required => ret.why # "UnboundedRecursion"
 RejectsMalformed == Done /\ ~IsC10 /\ Required /\ C11MustReject => out.dec.k = "error"
 BaselineDecrypts == Done /\ ~IsC10 /\ Required /\ Baseline => out.dec.k = "plaintext"
 
@@ -1057,7 +1280,11 @@ TypeOK == /\ impl \in {"w3c", "code", "fixed"}
           /\ phase \in {"encP", "self", "pkg2ref", "encR", "ref2pkg", "dec", "done"}
           /\ ret.k \in {"none", "bytes", "error", "panic"}
           /\ \A f \in {"self", "pkg2ref", "ref2pkg", "dec"} : out[f].k \in {"none", "plaintext", "wrongtext", "error", "panic"}
-          /\ Len(frames) <= 3
+          /\ Len(frames) <= 4
+          \* KeyInfo as a sequence of items is the eks / cert of the element in some order, plus references and names
+          /\ (~IsC10 => \A e \in {c.el} \cup {c.sibs[i] : i \in 1..Len(c.sibs)} :
+                e.ki = <<>> \/ /\ SelectSeq(e.ki, LAMBDA it : it.k = "ek") = [i \in 1..Len(e.eks) |-> EkIt(i)]
+                               /\ (e.cert = "absent" <=> SelectSeq(e.ki, LAMBDA it : it.k = "x509") = <<>>))
 OneOutcome == Done => IF IsC10 THEN /\ out.ref2pkg.k # "none"
                                      /\ (ThreeWay <=> out.self.k # "none") /\ (ThreeWay <=> out.pkg2ref.k # "none")
                                 ELSE out.dec.k # "none"
@@ -1069,7 +1296,17 @@ EmitC10 == PrintT(<<"VEC", ToJson([prop |-> "C10", model |-> impl, case |-> c, c
                                    refel |-> elR, pkgel |-> elP, x509 |-> <<X509("absent"), X509(c.ki)>>,
                                    kparts |-> KeyParts(c.bc, c.kv),
                                    pred |-> [self |-> out.self, pkg2ref |-> out.pkg2ref, ref2pkg |-> out.ref2pkg]])>>)
+\* tables: the rows of MgfId / RmUri the case uses (the harness checks the strings it writes against them)
+RECURSIVE AllEls(_)
+AllEls(sq) == IF sq = <<>> THEN {} ELSE {Head(sq)} \cup AllEls(Head(sq).eks) \cup AllEls(Tail(sq))
+CaseEls == AllEls(<<c.el>> \o c.sibs)
+CaseRms == UNION { { e.ki[i] : i \in { j \in 1..Len(e.ki) : IsRm(e.ki[j]) } } : e \in CaseEls }
 EmitC11 == PrintT(<<"VEC", ToJson([prop |-> "C11", model |-> impl, fam |-> c.fam, via |-> c.via, el |-> c.el, key |-> c.key, lex |-> c.lex,
+                                   sibs |-> c.sibs, tag |-> c.tag,
+                                   \* the case holds references between elements: what follows them may not return
+                                   refs |-> CaseRms # {},
+                                   mgfids |-> { [c |-> e.mgfid, row |-> MgfId(e.mgfid)] : e \in { x \in CaseEls : x.mgfid \notin {"none", "w3c"} } },
+                                   rmuris |-> { [u |-> it.uri, row |-> RmUri(it.uri)] : it \in CaseRms },
                                    class |-> C11Class, baseline |-> Baseline,
                                    rsaparts |-> RsaParts(c.key.shape),
                                    kparts |-> IF c.fam # "keyvalue" THEN <<>>
